@@ -82,6 +82,28 @@ def canon_t(x):
     return 'inf' if x == 'inf' or (isinstance(x, int) and x >= INF // 2) else x
 
 
+def state_mismatch(digest, states):
+    """cached tour state of the real route (hook RouteState::verif_digest: sorted renderings of every cached value, keys are
+    private types) vs. the model's state vectors: latest arrival + future waiting (Vec<f64>), current / max-past / max-future
+    load (Vec<SingleDimLoad>)"""
+    if digest is None:
+        return 'harness reported no state digest'
+    import ast
+    vf, vl = [], []
+    for s in digest:
+        if s.startswith('vf:'):
+            xs = ast.literal_eval(s[3:].replace('inf', '1e999'))
+            vf.append(['inf' if x >= 1e300 else (int(x) if x == int(x) else x) for x in xs])
+        elif s.startswith('vl1:'):
+            vl.append(list(ast.literal_eval(s[4:])))
+    latest, waiting, cur, past, fut = [[canon_t(x) for x in v] for v in states]
+    if sorted(map(str, vf)) != sorted(map(str, [latest, waiting])):
+        return 'cached latest-arrival / waiting states: impl %s model %s' % (vf, [latest, waiting])
+    if sorted(map(str, vl)) != sorted(map(str, [cur, past, fut])):
+        return 'cached load states: impl %s model %s' % (vl, [cur, past, fut])
+    return None
+
+
 def compare(c, impl, model):
     if 'panic' in impl:
         return 'implementation panicked: %s' % impl['panic']
@@ -94,7 +116,10 @@ def compare(c, impl, model):
         if impl['eval']['ok'] and feas0 == 1 and cert_ok != 1:
             return 'multi insertion certificate rejected by the model: some step does not pass the modelled evaluation'
         return None
-    sched, totals, res, feas0, alts = model
+    sched, totals, res, feas0, alts, states = model
+    d = state_mismatch(impl.get('digest'), states)
+    if d:
+        return d
     msched = [[canon_t(a), canon_t(b)] for a, b in sched]
     if msched != isched:
         return 'schedule: impl %s model %s' % (isched, msched)
